@@ -1366,7 +1366,12 @@ class Exec:
                 raise Unsupported('cast kind %s' % ck)
             return v
         if k == 'FloatingLiteral':
-            return D(sp.Rational(Fraction(float(n['value']))) if ('e' in n['value'].lower() or len(n['value']) > 15) else sp.Rational(Fraction(n['value'])))
+            # clang prints the double nearest to the literal with 17 digits (0.1 -> 0.10000000000000001); the real-arithmetic reading of the program takes the
+            # literal as the shortest decimal that denotes this double, i.e. what the source says (machine arithmetic treated as mathematical)
+            try:
+                return D(sp.Rational(Fraction(repr(float(n['value'])))))
+            except ValueError:
+                return D(sp.Rational(Fraction(float(n['value']))))
         if k == 'IntegerLiteral':
             return int(n['value'])
         if k == 'CXXBoolLiteralExpr':
